@@ -83,8 +83,9 @@ def gen_config(rng, nboards=None, rich=True, with_initial=True, max_trains=4, wi
         numbers = rng.sample(range(128), 12)
         ports = rng.sample(range(0x10000), 6)
 
-        def aspects(n):
-            vals = rng.sample(range(128), n)
+        def aspects(n, full=False):
+            # accessory aspects are 7-bit values; a port state (peripherals: servo position, dimmer ...) is a whole byte
+            vals = rng.sample(range(256 if full else 128), n)
             return [(ids.new('asp'), v) for v in vals]
 
         def board_acc(kind):
@@ -122,7 +123,7 @@ def gen_config(rng, nboards=None, rich=True, with_initial=True, max_trains=4, wi
                 lst = []
                 for _ in range(rng.randrange(0, 4)):
                     p = ports.pop()
-                    a = {'id': ids.new('periph'), 'number': rng.randrange(256), 'port': (p >> 8, p & 0xFF), 'aspects': aspects(rng.randrange(1, 4)), 'initial': None}
+                    a = {'id': ids.new('periph'), 'number': rng.randrange(256), 'port': (p >> 8, p & 0xFF), 'aspects': aspects(rng.randrange(1, 4), full=True), 'initial': None}
                     if with_initial and rng.random() < 0.5:
                         a['initial'] = rng.choice(a['aspects'])[0]
                     lst.append(a)
